@@ -182,6 +182,6 @@ Theorem C07_other_refuted :
   fst (mrun 60 w_dyn st0) = MVal (VInt 3) /\ fst (srun 60 w_dyn st0) = Err CControl /\
   fst (mrun 60 w_mv st0) = MVal (VInt 1) /\ fst (srun 60 w_mv st0) = Normal VNil /\
   fst (mrun 60 w_nested st0) = MVal (VRetM 2%N (VInt 1)) /\ fst (srun 60 w_nested st0) = Normal (VInt 3) /\
-  fst (mrun 60 w_cond_nobody st0) = MVal VNil /\ fst (srun 60 w_cond_nobody st0) = Normal (VInt 5).
+  fst (mrun 60 w_cond_nobody st0) = MVal (VInt 5) /\ fst (srun 60 w_cond_nobody st0) = Normal (VInt 5).
 Proof. exact other_refuted. Qed.
 Print Assumptions C07_other_refuted.
